@@ -25,6 +25,10 @@
 //   C06  `result.unwrap()` in from_tours panics if a spawn fails.  The contract of spawn_vehicle_for_path says when the result
 //        is Err for sure (incompatible node, all 2^16 ids used) but NOT when it is Ok, so no condition on the input tours can
 //        be shown sufficient: the unwrap is covered by the STATED precondition every_spawn_succeeds (see PRECONDITIONS).
+//        `expect("There should be at least the overflow depot available.")` inside spawn_vehicle_for_path (its precondition
+//        some_depot_has_room) is DERIVED for every intermediate schedule of the loop from the stated instance-level fact
+//        some_depot_hosts_all (lemma_ft_call_depot): the usage table is exact, so it only counts the vehicles spawned so far,
+//        fewer than the number of given tours.
 //        The other panics / overflows (`train_formations.get(&node).unwrap()`, the u32 additions of the fold, the u64
 //        product of the staff term) are excluded under the stated preconditions.
 //
@@ -50,7 +54,9 @@
 //            `sorted_clusters` stays empty, so `cycles` and `cycle_lookup` are empty, the two totals keep their initial 0 and
 //            `empty_cycles: Vec::new()`.  Nothing is assumed for a non-empty list.
 //   R7a stubs (verified elsewhere with the SAME contract text; tools/stub_sync.py reports no difference):
-//            Schedule::compute_unserved_passengers_at_node (admission), Schedule::spawn_vehicle_for_path (spawn_vehicle);
+//            Schedule::compute_unserved_passengers_at_node (admission), Schedule::spawn_vehicle_for_path (spawn_vehicle; WITH
+//            the preconditions it got from find_best_start_depot_for_spawning: start_depots_ok, usage_counts_small,
+//            some_depot_has_room -- vocabulary: last block of env/spawn_vehicle_shim.vs);
 //            env/time_ops.vs, env/model_fns.vs, env/dist_ops.vs included trusted (slices time / network / tour_ctor)
 //   A-derive / A-std / A-fmt of the included shims (env/spawn_vehicle_shim.vs etc.: only their spec vocabulary and lemmas are used
 //            here: sv_ok and its parts, spawned / listed / formations_follow / transitions_follow, usage_exact, un_sum);
@@ -71,6 +77,17 @@
 //     vehicle type is a listed type of the network stored under its own index (type_known), the tour is not empty, its
 //     nodes are nodes of the network, A-len (tour_len_ok), A-counter (path_counter_ok, as spawn_counter_ok), A-cost
 //     (path_cost_ok, magnitude: whatever tour the path becomes costs at most 2^44, so that 2^16 tours stay below 2^61);
+//   * NEW (what spawn_vehicle_for_path needs for the choice of the start depot):
+//     - A-index (instance validity): Network::start_depots_ok -- the start depot node list holds StartDepot nodes of the network
+//       whose depot is in the depot table (how Network::new fills it; not proved in slice network_new; kept out of instance_ok,
+//       under which Schedule::empty claims sv_ok);
+//     - C06 / C17: some_depot_hosts_all(network, given tours) -- SOME start depot node's depot lists the vehicle type of every
+//       given tour WITHOUT per-type limit and has a total capacity of at least the number of given tours ("at least the
+//       overflow depot": it lists every type without limit, slices/network_new.vs; its capacity is a computed number, C17 / D5,
+//       not related to the number of tours in any slice).  Sufficient, not necessary (tours that start with a depot do not need
+//       it).  From it some_depot_has_room follows for EVERY state ft_inv describes (lemma_ft_call_depot, via
+//       lemma_usage_counts_le_vehicles + lemma_depot_without_type_limit_suffices of env/spawn_vehicle_shim.vs); the magnitude
+//       usage_counts_small follows from ft_inv alone (lemma_usage_counts_small).
 //   * every_spawn_succeeds (C06): for every schedule s in a state from_tours can be in after the first n given tours (ft_inv)
 //     and every possible result r of s.spawn_vehicle_for_path(type of tour n, tour n), r is Ok.  "Possible result" is
 //     `call_ensures(Schedule::spawn_vehicle_for_path, (&s, vt, path), r)`, the relation Verus provides between the arguments
@@ -82,8 +99,11 @@
 //
 // NOT covered:
 //   * WHEN spawn_vehicle_for_path succeeds (see above) and hence that MinCostFlowSolver::solve, the only caller of from_tours,
-//     establishes every_spawn_succeeds; that the callers establish the other preconditions (magnitudes, A-index);
-//   * which depots are put at the ends of a given tour (only depots_added), the order in which a std HashMap is visited (the
+//     establishes every_spawn_succeeds; that the callers establish the other preconditions (magnitudes, A-index,
+//     some_depot_hosts_all: C17 is not connected to it);
+//   * which depots are put at the ends of a given tour (only depots_added; the postconditions best_start_depot / nearest_end_depot /
+//     depot_limits_hold of the spawn_vehicle_for_path stub speak about the usage table of the intermediate schedule and are not
+//     carried into ft_inv / the result), the order in which a std HashMap is visited (the
 //     ids 0, 1, 2, … follow `entries(tours)`, which std leaves unspecified: the numbering of the vehicles of different types
 //     is not determined by the input);
 //   * that `number_of_service_nodes` is the number of service trips of the network (A-index / A-lib of slices/network_new.vs):
@@ -376,6 +396,18 @@ impl Clone for TransitionCycle {
         path_as_vec@.len() >= 1, all_in_net(&self.network, path_as_vec@), tour_len_ok(path_as_vec@),
         // A-counter (magnitude)
         self.spawn_counter_ok(path_as_vec@),
+        // what the choice of the depots needs (find_best_start_depot_for_spawning, slices/depot_choice.vs; not part of sv_ok):
+        // A-index (how Network::new fills the list; not proved in slice network_new): the start depot node list holds StartDepot
+        // nodes of the network whose depot is in the network's depot table
+        self.network.start_depots_ok(),
+        // only if a start depot has to be chosen (the path does not start with a depot):
+        // magnitude: the counts of the schedule's usage table fit u32 (vehicle ids are 16 bit)
+        !self.network.sp_node(path_as_vec@[0]).sp_is_depot() ==> self.usage_counts_small(vehicle_type_idx, self.depot_usage@),
+        // C06 / C17: some start depot node of the network has room for the type w.r.t. the schedule's usage table ("There should
+        // be at least the overflow depot available."; that the overflow depot's capacity suffices is C17, slices/network_new.vs,
+        // D5; lemma_depot_without_type_limit_suffices: a start depot node whose depot lists the type without per-type limit and
+        // where fewer vehicles start in total than its total capacity suffices).  Otherwise `expect` panics.
+        !self.network.sp_node(path_as_vec@[0]).sp_is_depot() ==> self.some_depot_has_room(vehicle_type_idx, self.depot_usage@), // @obl C06.spawn_vehicle.expect_needs_a_depot_with_room
     ensures
         // C01 / C10 "a vehicle only serves service trips of the vehicle's type": "If some node on the path is not
         // compatible with the vehicle type an error is returned", and every node of the new vehicle's tour is compatible
@@ -390,6 +422,26 @@ impl Clone for TransitionCycle {
         // covered / finding" in the header)
         r is Ok ==> activities_kept(&self.network, path_as_vec@, r->Ok_0.0.tours@[r->Ok_0.1].nodes@), // @obl C13.spawn_vehicle.adds_exactly_one_vehicle_with_the_given_path
         r is Ok ==> self.listed(vehicle_type_idx, &r->Ok_0.0, r->Ok_0.1), // @obl C13.spawn_vehicle.adds_exactly_one_vehicle_with_the_given_path
+        // C02 "the number of vehicles starting there stays within the depot's total capacity and within the per-type capacity
+        // (types not listed for a depot never start there)": if the path does not start with a depot, the new vehicle's start depot
+        // node is a start depot node of the network whose depot lists the type and had room for one more vehicle of it, per
+        // type and in total, in the OLD usage table ...
+        r is Ok && !self.network.sp_node(path_as_vec@[0]).sp_is_depot()
+            ==> self.network.start_depot_nodes@.contains(r->Ok_0.0.tours@[r->Ok_0.1].nodes@[0])
+                && self.sp_can_spawn(r->Ok_0.0.tours@[r->Ok_0.1].nodes@[0], vehicle_type_idx, self.depot_usage@), // @obl C02.spawn_vehicle.start_depot_had_room
+        // ... hence the depot's limits hold for the NEW usage table (lemma_spawn_keeps_depot_limits)
+        r is Ok && !self.network.sp_node(path_as_vec@[0]).sp_is_depot()
+            ==> self.depot_limits_hold(r->Ok_0.0.tours@[r->Ok_0.1].nodes@[0], vehicle_type_idx, r->Ok_0.0.depot_usage@), // @obl C02.spawn_vehicle.depot_limits_hold_after_the_spawn
+        // C13 "the vehicle is spawned from the nearest availabe depot": ... and it is the nearest such node (dead-head distance
+        // from the depot to the start location of the first node of the path; ties: the one listed first)
+        r is Ok && !self.network.sp_node(path_as_vec@[0]).sp_is_depot()
+            ==> self.best_start_depot(r->Ok_0.0.tours@[r->Ok_0.1].nodes@[0], vehicle_type_idx, self.network.sp_node(path_as_vec@[0]).sp_start_location(), self.depot_usage@), // @obl C13.spawn_vehicle.nearest_start_depot_with_room
+        // C13 "Similarly, if path does not end with a depot the vehicle is spawned to the nearest depot (from the end location of
+        // the last trip)": if the path neither starts nor ends with a depot, the tour ends at the nearest end depot node
+        // (capacities ignored; ties: the one listed first)
+        r is Ok && !self.network.sp_node(path_as_vec@[0]).sp_is_depot() && !self.network.sp_node(path_as_vec@[path_as_vec@.len() - 1]).sp_is_depot()
+            ==> self.network.nearest_end_depot(r->Ok_0.0.tours@[r->Ok_0.1].nodes@[r->Ok_0.0.tours@[r->Ok_0.1].nodes@.len() - 1],
+                    self.network.sp_node(path_as_vec@[path_as_vec@.len() - 1]).sp_end_location()), // @obl C13.spawn_vehicle.nearest_end_depot
         // C10 "listings sorted and match": if every type's id list held exactly the vehicles of the type, it still does
         r is Ok && self.listings_match() ==> r->Ok_0.0.listings_match(), // @obl C10.spawn_vehicle.listings_still_match
         r is Ok ==> self.formations_follow(&r->Ok_0.0, r->Ok_0.1), // @obl C13.spawn_vehicle.formations_follow_update_train_formation
@@ -413,6 +465,18 @@ impl Clone for TransitionCycle {
         instance_ok(&network), caps_ok(&network),
         // the given tours: a listed vehicle type, not empty, nodes of the network, A-len, A-counter, A-cost
         forall|n: int| 0 <= n < all_jobs(entries(tours)).len() ==> job_ok(&network, #[trigger] all_jobs(entries(tours))[n]),
+        // what the choice of a start depot in spawn_vehicle_for_path needs (find_best_start_depot_for_spawning, slices/depot_choice.vs):
+        // instance validity, A-index (how Network::new fills the list; not proved in slice network_new): the start depot node list
+        // holds StartDepot nodes of the network whose depot is in the network's depot table (not part of instance_ok, under which
+        // Schedule::empty claims sv_ok)
+        network.start_depots_ok(),
+        // C06 / C17 "There should be at least the overflow depot available." (`expect` in find_best_start_depot_for_spawning panics
+        // otherwise): SOME start depot node's depot (the overflow depot Network::new adds, slices/network_new.vs) lists the vehicle
+        // type of every given tour without per-type limit and has a total capacity of at least the number of given tours.
+        // From this instance-level fact some_depot_has_room is DERIVED for every intermediate schedule of the loop
+        // (lemma_ft_call_depot: the exact usage table only counts the vehicles spawned so far); the magnitude usage_counts_small
+        // is derived from the loop invariant alone
+        some_depot_hosts_all(&network, all_jobs(entries(tours))), // @obl C06.from_tours.a_depot_hosts_every_given_tour
         // C06: `result.unwrap()` panics if a spawn fails
         every_spawn_succeeds(network, all_jobs(entries(tours))), // @obl C06.from_tours.unwrap_needs_every_spawn_to_succeed
     ensures
@@ -447,6 +511,7 @@ impl Clone for TransitionCycle {
                 schedule.ft_inv(net, jobs_upto(es, it.index@ as int)), // @obl C14.from_tours.one_vehicle_per_given_tour
                 forall|n: int| 0 <= n < jobs.len() ==> job_ok(&net, #[trigger] jobs[n]),
                 every_spawn_succeeds(net, jobs),
+                net.start_depots_ok(), some_depot_hosts_all(&net, jobs),
 //@before "for tour in"
             let ghost oi = it.index@ as int;
             let ghost ts = tours@;
@@ -459,6 +524,7 @@ impl Clone for TransitionCycle {
                     schedule.ft_inv(net, jobs_upto(es, oi) + jobs_of_entry(es[oi], it.index@ as int)), // @obl C14.from_tours.one_vehicle_per_given_tour
                     forall|n: int| 0 <= n < jobs.len() ==> job_ok(&net, #[trigger] jobs[n]),
                     every_spawn_succeeds(net, jobs),
+                    net.start_depots_ok(), some_depot_hosts_all(&net, jobs),
 //@before "let result"
                 let ghost done = jobs_upto(es, oi) + jobs_of_entry(es[oi], it.index@ as int);
                 let ghost s0 = schedule;
@@ -467,6 +533,8 @@ impl Clone for TransitionCycle {
                     lemma_jobs_prefix(es, oi, it.index@ as int, es.len() as int);
                     assert(jobs[done.len() as int] == job);
                     lemma_ft_call(&schedule, net, done, job);
+                    // C06: `expect("There should be at least the overflow depot available.")` cannot panic in this state
+                    lemma_ft_call_depot(&schedule, net, jobs, done, job);
                 }
 //@after "let result"
                 proof {
